@@ -291,7 +291,8 @@ theorem copt_unsplit (leap : Bool) (m dd : Int) (h1 : 1 ≤ m) (h2 : m ≤ 13) (
     (h4 : dd ≤ (if m ≠ 13 then 30 else if leap then 6 else 5)) :
     1 ≤ (m - 1) * 30 + dd ∧ (m - 1) * 30 + dd ≤ (if leap then 366 else 365) ∧
     (Int.tdiv ((m - 1) * 30 + dd - 1) 30 + 1, Int.fmod ((m - 1) * 30 + dd - 1) 30 + 1) = (m, dd) := by
-  rw [tdiv_pos _ _ (by decide : (0 : Int) < 30), fmod_pos _ _ (by decide : (0 : Int) < 30), if_pos (by omega)]
+  rw [tdiv_pos _ _ (by decide : (0 : Int) < 30), fmod_pos _ _ (by decide : (0 : Int) < 30),
+    if_pos (show 0 ≤ (m - 1) * 30 + dd - 1 by omega)]
   have hL : (if leap then (366 : Int) else 365) = 360 + (if leap then 6 else 5) := by cases leap <;> rfl
   have h6 : (5 : Int) ≤ (if leap then 6 else 5) ∧ (if leap then (6 : Int) else 5) ≤ 6 := by cases leap <;> decide
   rw [hL]
